@@ -28,9 +28,22 @@ def fmtRun (c0 : Interp.Ctr) : Option (Except Err (Nat Ã— Val Ã— Interp.Ctr)) â†
   | some (.ok (cost, v, c)) =>
     s!"ok {cost} {Wire.hexOfTree v.erase} {c.atoms - c0.atoms} {c.pairs - c0.pairs} {c.heap - c0.heap}"
 
+/-- the *standard operator-name table*: operator names at the opcodes the Chia language assigns to them
+(the table a user of `RuntimeDialect` passes in; the same literal table as
+`harness::run::standard_op_map`).  It is pinned here, not derived from the sources: which function a
+name resolves to is `f_table.rs`'s business (`Gen.fTableNames`), which function an opcode resolves to is
+`ChiaDialect::op`'s (`Gen.chiaOpTable`), and C30 says the two agree through this table. -/
 def standardOpMap : List (String Ã— Bytes) :=
-  (Gen.fTableNames.filterMap (fun (name, fn) =>
-    (Gen.chiaOpTable.find? (fun e => e.2.1 == fn && e.2.2 == 0)).map (fun e => (name, [UInt8.ofNat e.1]))))
+  [("op_if", [3]), ("op_cons", [4]), ("op_first", [5]), ("op_rest", [6]), ("op_listp", [7]), ("op_raise", [8]),
+   ("op_eq", [9]), ("op_gr_bytes", [10]), ("op_sha256", [11]), ("op_substr", [12]), ("op_strlen", [13]),
+   ("op_concat", [14]), ("op_add", [16]), ("op_subtract", [17]), ("op_multiply", [18]), ("op_div", [19]),
+   ("op_divmod", [20]), ("op_gr", [21]), ("op_ash", [22]), ("op_lsh", [23]), ("op_logand", [24]),
+   ("op_logior", [25]), ("op_logxor", [26]), ("op_lognot", [27]), ("op_point_add", [29]),
+   ("op_pubkey_for_exp", [30]), ("op_not", [32]), ("op_any", [33]), ("op_all", [34]),
+   ("op_g1_subtract", [49]), ("op_g1_multiply", [50]), ("op_g1_negate", [51]), ("op_g2_add", [52]),
+   ("op_g2_subtract", [53]), ("op_g2_multiply", [54]), ("op_g2_negate", [55]), ("op_g1_map", [56]),
+   ("op_g2_map", [57]), ("op_bls_pairing_identity", [58]), ("op_bls_verify", [59]), ("op_modpow", [60]),
+   ("op_mod", [61])]
 
 /-- `RUN <dialect> <flags> <budget> <headroom|-> <prog> <env> [tags]` -/
 def handleRunWith (cfg : Cfg) (extra : String â†’ Option OpFn) (args : List String) : Option String :=
